@@ -40,9 +40,26 @@ CHECKS={
    text="Bounded-exhaustive single-fault injection: every accepted closed selection of <=2 / <=3 pool blocks x every applicable fault of every kind named by the property at every position x delivery {direct, PASTE, INCLUDE}; oracle: rejected and the diagnostic lies inside the source span (in the right file) of a directive that takes part in the fault.",
    ref="DESIGN.md §5 C11", note="Faults inside never-pasted macro bodies are not judged; for PASTE delivery every PASTE on the way to the faulty macro counts as taking part.",
    technique=T_MC+"exhaustive single-fault injection over enumerated documents (fault_enumeration style, decided exhaustively)"),
+ "C17":dict(engine="E-STR",
+   text="Exhaustive over strings: ALL values of length 1..4 / 1..5 over an 11-character stress alphabet, quoted and (where possible) bare, in 7 parameter hosts read back from the catalog JSON; ALL malformed forms (unterminated quote, backslash before 10 other characters at every position) must be rejected at that byte; the unescape function against the reference for all strings up to length 6 / 7.",
+   ref="DESIGN.md §5 C17", note="Path hosts may reject a value for reasons of their own ({} parameters); that is counted, not judged.",
+   technique=T_MC+"exhaustive enumeration of all strings up to a length bound, end to end and through a hooked function (reference model written from the property)"),
+ "C15":dict(engine="E-STR",
+   text="Exhaustive over texts: ALL descriptions of 1..3 / 1..4 lines over a 13-line alphabet x 3 line ends x 4 hosts x bare / parenthesised x 3 base indentations against the reference normalisation, bare = parenthesised, blank rejected, re-feeding the catalog text gives itself; ALL annotation texts of length 0..4 / 0..5 over 7 characters on 6 directive kinds in both spellings against the reference collapse.",
+   ref="DESIGN.md §5 C15", note="Not judged (left open by the sentence): whitespace-only lines inside a text, trailing blanks of the last line, lines a bare spelling cannot express.",
+   technique=T_MC+"exhaustive enumeration of all texts up to a bound over a line/character alphabet (reference model written from the property)"),
+ "C19":dict(engine="E-STR",
+   text="Exhaustive over strings: ALL first segments of length 1..5 / 1..6 over 9 characters through the automatic tag-name function with a single-pass injectivity map (decides the for-all-pairs statement) and end to end for length <= 3; exhaustive product of Tags placements (URL level x two methods x protocol x parentheses x hoisted path-bearing method x declaration order x undeclared) against the reference rule; mutual tag/interaction references and titles.",
+   ref="DESIGN.md §5 C19", note="Documents the library rejects for other reasons (URL-level Tags next to Protocol) are counted, not judged.",
+   technique=T_MC+"exhaustive enumeration of strings (injectivity by one pass over the whole set) and of a product of document shapes against a reference rule"),
+ "C13":dict(engine="E-DOC",
+   text="Bounded-exhaustive: ALL ordered selections of <=2 / <=3 paths from 7 templates x 3 placements of the Path directive x every subset of declared parameters x inline / referenced body, against the reference binding (expected verdict and expected pathVariables of every interaction); 17 faulty variants must be rejected; the splitter against the reference for ALL strings of length <= 7 / 8 over {/ { } a}.",
+   ref="DESIGN.md §5 C13", note="Bound: the 7 path templates (depth <= 4, two parameter names).",
+   technique=T_MC+"bounded-exhaustive enumeration of path trees and declarations against a reference binding; exhaustive strings for the splitter"),
 }
 ENGINES=[
  {"name":"E-SCAN","path":"internal/escan","serves_properties":["C14"],"kind_free_text":"explicit-state BFS over the real scanner.Next with a per-byte hook; abstract key cross-checked by second representatives"},
+ {"name":"E-STR","path":"internal/checks (c13 c15 c17 c19)","serves_properties":[],"kind_free_text":"all strings / texts up to a length bound over a stress alphabet, through hooked functions and end to end, against reference rules written from the property statements"},
  {"name":"E-DOC","path":"internal/doc + internal/checks","serves_properties":["C05"],"kind_free_text":"bounded-exhaustive document enumeration (block pool, renderer with spans) with metamorphic partners, sharded over crash-isolated worker processes (internal/fw)"},
 ]
 m={"version":1,"setup_cmd":"./run build",
